@@ -33,7 +33,7 @@ func genWS(r *rand.Rand) string { return wsChoices[r.Intn(len(wsChoices))] }
 
 var genNumbers = []string{"0", "-0", "1", "-1", "12", "1.5", "-0.5", "1e2", "1E+2", "1e-2", "0.0e0", "123456789012345678901234567890",
 	"1e999", "-1e-999", "0.1000000000000000055511151231257827", "9007199254740993", "18446744073709551615", "1.0E5"}
-var genStrings = []string{`""`, `"a"`, `"abc"`, `"a b"`, `"\""`, `"\\"`, `"\/"`, `"\b\f\n\r\t"`, `"A"`, `"é"`, `"😀"`, `"\ud800"`,
+var genStrings = []string{`"\ud83d\ude00"`, `"x\ud83d\ude00y"`, `""`, `"a"`, `"abc"`, `"a b"`, `"\""`, `"\\"`, `"\/"`, `"\b\f\n\r\t"`, `"A"`, `"é"`, `"😀"`, `"\ud800"`,
 	"\"é\"", "\"€\"", "\"\U0001F600\"", `"<>&"`, "\"  \"", `" "`, `"k"`, `"key with space"`, `"0"`, `"\u0000"`, `"\u001f"`, "\"\x7f\""}
 
 // genValue produces a valid JSON value with random white space.
@@ -113,7 +113,7 @@ var corpusDocs = []string{
 	`tru`, `nul`, `fals`, `truee`, `nulll`, `TRUE`, `nan`, `NaN`, `Infinity`, `-`, `+1`, `01`, `1.`, `.5`, `-.5`, `1e`, `1e+`, `1.e1`, `0x1`, `1e999`, `-0`, `0e0`, `1E5`, `--1`, `1-1`, `1+1`, `1..2`,
 	`"`, `"a`, `"\`, `"\"`, `"\x"`, `"\u"`, `"\u1"`, `"\u12"`, `"\u123"`, `"\u123g"`, `"\uZZZZ"`, `"ሴ"`, "\"a\nb\"", "\"a\tb\"", "\"\x00\"", "\"\x1f\"", "\"\x7f\"", "\"\xff\"", "\"\xc3\"", "\"\xc3\xa9\"",
 	"1\x00", "1\x002", "[1\x00]", "\x00", "\x001", " ", "", "\n", "1 2", "1,2", `"a""b"`, `{} {}`, `[][]`, `nullnull`, `1 x`, `truefalse`,
-	`{"a":1,"a":2}`, `{"":0}`, `[""]`, `"<script>&amp;"`, "\" \"", `{"<":">"}`,
+	`{"\ud83d\ude00":1}`, `{"a\ud83d\ude00":{"\u00e9":[1]}}`, `{"a":1,"a":2}`, `{"":0}`, `[""]`, `"<script>&amp;"`, "\" \"", `{"<":">"}`,
 }
 
 // byteSweep: every byte value in every kind of position of a small document
